@@ -29,7 +29,7 @@ API_SIZES = {
     "C09": {"quick": (40, 10), "thorough": (600, 30)},
     "C10": {"quick": (30, 25), "thorough": (400, 80)},
     "C11": {"quick": (30, 10), "thorough": (400, 30)},
-    "C12": {"quick": (40, (5, 25)), "thorough": (700, (5, 60))},
+    "C12": {"quick": (140, (6, 30)), "thorough": (1500, (6, 60))},
     "C13": {"quick": (60, (4, 14)), "thorough": (1200, (4, 40))},
 }
 for _pid, _sz in API_SIZES.items():
